@@ -267,6 +267,13 @@ fn emit_wrapped_loop_choice_body(
         body_already_emitted = true;
     } else if choice.has_choice_only_content && !choice.has_start_content {
         branch_nodes.push(Node::Newline);
+    } else if choice.is_invisible_default
+        && !choice.has_start_content
+        && !choice.has_choice_only_content
+        && !choice.body_divert_is_inline
+    {
+        // fallback choice (`* ->`): its empty text line still ends in a line break
+        branch_nodes.push(Node::Newline);
     }
 
     if !body_already_emitted {
